@@ -60,7 +60,11 @@ func (a *c19AEAD) Seal(dst, nonce, plaintext, ad []byte) []byte {
 	return append(append(dst, plaintext...), tag...)
 }
 func (a *c19AEAD) Open(dst, nonce, ciphertext, ad []byte) ([]byte, error) {
-	if len(nonce) != 12 || len(ciphertext) < 32 {
+	if len(nonce) != 12 {
+		// crypto/cipher's GCM: "The nonce must be NonceSize() bytes long" - the real implementation panics
+		panic("crypto/cipher: incorrect nonce length given to GCM")
+	}
+	if len(ciphertext) < 32 {
 		return nil, errors.New("cipher: message authentication failed")
 	}
 	pt := ciphertext[:len(ciphertext)-32]
